@@ -75,6 +75,8 @@ func main() {
 		os.Exit(f(tier))
 	case "driver":
 		os.Exit(driverCmd(os.Args[2:]))
+	case "pty":
+		os.Exit(ptyCmd(os.Args[2:]))
 	case "warm":
 		os.Exit(warm())
 	default:
